@@ -466,7 +466,7 @@ impl Storage for MemStorage {
             return Err(Error::Store(StorageError::LogTemporarilyUnavailable));
         }
 
-        let offset = core.entries[0].index;
+        let offset = core.first_index();
         let lo = (low - offset) as usize;
         let hi = (high - offset) as usize;
         let mut ents = core.entries[lo..hi].to_vec();
